@@ -17,7 +17,7 @@ FORMATS = [("hex", "hex"), ("srec", "srec"), ("elf", "elf"), ("wdc", "wdc"), ("u
 
 NO_USLEEP = ("riscv", "riscv64", "mips", "mips32", "pic32", "ebpf")
 
-COMMANDS = ["asm", "break", "call", "clear", "disasm", "display", "dumpram", "dump_ram", "help", "info",
+COMMANDS = ["asm", "break", "call", "clear", "disasm", "display", "dumpram", "dump_ram", "dumpram", "help", "info",
             "no_clear", "print", "print16", "print32", "push", "registers", "reg", "reset", "run", "set",
             "speed", "step", "stop", "symbols", "write", "write16", "write32", "bogus", ""]
 
@@ -62,7 +62,7 @@ def rng_arg(rng, lo_hint):
     if k == 3:
         return "-0x%x" % a
     if k == 4:
-        return "0x%x-0x%x" % (a + 100, a)           # end < start
+        return "0x%x-0x%x" % (a + rng.pick([1, 16, 100, 0x7000]), a)           # end < start
     if k == 5:
         return "0x%x-0xffffffff" % rng.pick([0xffffff00, 0xfffffff0, 0xffffffff])   # wrap probe, short
     if k == 6:
@@ -175,6 +175,8 @@ class C17(Engine):
             cli_cpu = cpu if rng.chance(3, 4) else rng.pick(progs.cpus())["name"]
             argv.append("-" + cli_cpu)
         name = "obj." + ext if rng.chance(5, 6) else "obj." + rng.pick(["hex", "srec", "txt", "uf2", "wdc", "bin", "elf", "x", ""])
+        if rng.chance(1, 40):
+            name = rng.pick(["firmware", "a", ".hex", "dir.d/obj", "obj"])
         plan["name"] = name
         if fmt == "bin" or rng.chance(1, 10):
             if rng.chance(2, 3):
@@ -199,6 +201,8 @@ class C17(Engine):
             argv.append("-run")
         if rng.chance(19, 20):
             argv.append(name)
+        elif rng.chance(1, 2):
+            argv.append(rng.pick(["", ".", "..", "/", "nothere.hex"]))
         if rng.chance(1, 30):
             argv.append(rng.pick(["-bogus", "-address", "-sim_serial", "-set_pc", "second.hex", "-disasm_range", "-break_io", "-bin"]))
         plan["argv"] = argv
